@@ -1,0 +1,10 @@
+//go:build !verif
+
+// Package vhook holds verification hooks. Without the build tag "verif" they compile to nothing.
+package vhook
+
+// Point marks a place between two critical sections. It does nothing in normal builds.
+func Point(name string) {}
+
+// Event reports an internal event. It does nothing in normal builds.
+func Event(name string, kv ...any) {}
